@@ -21,14 +21,14 @@ func init() {
 		ID: "C11", Level: "exploration", Primary: "states", EvalCount: "stops",
 		Rule: "liveness restated as bounded progress: Stop must return within B=10s (an order of magnitude above what a correct implementation needs) WITHOUT any client action, and Run must then return nil. " +
 			"One evaluation = a fresh server brought into a connection state (none; 1/8/64 idle; half a frame sent; TLS listener with no / partial ClientHello; StartTLS-upgraded idle; StartTLS answered but handshake never started; busy pipelining; clients not reading " +
-			"large responses so that handlers block in Write - alone and combined ON THE SAME CONNECTION with an Unbind, a half-close, a pending StartTLS handshake or half a frame; all of them together) x optional concurrent second Stop, then Stop is called; plus Stop racing Run's start-up with no client at all (Run parked at its own log statements through the user-supplied logger, and random microsecond offsets), and a connection with a history of 150 recovered handler panics. If B expires the harness dumps goroutines and lets the clients go: a Stop parked in " +
+			"large responses so that handlers block in Write - alone and combined ON THE SAME CONNECTION with an Unbind, a half-close, a pending StartTLS handshake or half a frame; all of them together) x optional concurrent second Stop, then Stop is called; plus Stop racing Run's start-up with no client at all (Run parked at its own log statements through the user-supplied logger, and random microsecond offsets), a connection with a history of 150 recovered handler panics, and idle connections left over by a PRNG-chosen history of 4..20 connections coming and going. If B expires the harness dumps goroutines and lets the clients go: a Stop parked in " +
 			"WaitGroup.Wait with a gldap connection goroutine parked in network I/O, released only when the clients close, is a violation; anything else is inconclusive. " +
 			"distinct_nontrivial = distinct (state, #connections, second-Stop) triples with at least one connection open at Stop time",
 		Assume: []string{"handlers that block in application code (not in gldap's Write) are outside the statement: the workload's handlers only ever block inside ResponseWriter.Write"},
 		Phases: func(tier string, seed int64) []Phase {
 			return []Phase{{Name: "stop-states", Run: c11Run, Timeout: 40 * time.Minute}}
 		},
-		MinObserved: []string{"stops", "stops_with_open_connections", "stops_with_handlers_blocked_in_write", "stops_racing_run_startup"},
+		MinObserved: []string{"stops", "stops_with_open_connections", "stops_with_handlers_blocked_in_write", "stops_racing_run_startup", "stops_after_connection_churn"},
 	})
 }
 
@@ -139,6 +139,9 @@ func c11Run(c *Ctx) {
 	if !c.Quick() {
 		counts = []int{1, 8, 64}
 		reps = 20
+	}
+	for i := 0; i < c.N(15, 400); i++ {
+		c11One(c, pki, c11State{Name: "idle-after-churn", Conns: i, Second: i%3 == 0})
 	}
 	for rep := 0; rep < reps; rep++ {
 		for _, st := range states {
@@ -292,7 +295,26 @@ func c11One(c *Ctx, pki *PKI, st c11State) {
 	if st.Name == "mixed" {
 		kinds = []string{"idle", "half-frame", "starttls-idle", "busy-pipelining", "not-reading", "starttls-pending", "not-reading+unbind", "not-reading+half-close", "not-reading+starttls-pending"}
 	}
-	if st.Name != "none" {
+	if st.Name == "idle-after-churn" {
+		// a history of connections that come and go (each close is seen by the server before the next step), at the end
+		// of which some connections are simply idle: how the set of connections came about is none of Stop's business
+		r := c.Rng.Sub(fmt.Sprintf("churn%d", st.Conns))
+		for step, n := 0, 4+r.Intn(16); step < n; step++ {
+			if len(conns) > 0 && r.Chance(45) {
+				i := r.Intn(len(conns))
+				before := srv.closeCnt.Load()
+				conns[i].Close()
+				conns = append(conns[:i], conns[i+1:]...)
+				srv.WaitCloses(before+1, 2*time.Second)
+			} else {
+				open("idle")
+			}
+		}
+		if len(conns) == 0 {
+			open("idle")
+		}
+		c.Count("stops_after_connection_churn", 1)
+	} else if st.Name != "none" {
 		for i := 0; i < st.Conns; i++ {
 			open(kinds[i%len(kinds)])
 		}
@@ -311,6 +333,9 @@ func c11One(c *Ctx, pki *PKI, st c11State) {
 	}
 	blocked := blockedWrites.Load()
 	sig := fmt.Sprintf("%s/n%d/second=%v", st.Name, st.Conns, st.Second)
+	if st.Name == "idle-after-churn" {
+		sig = fmt.Sprintf("%s/open%d/second=%v", st.Name, len(conns), st.Second)
+	}
 	// ---- Stop
 	t0 := time.Now()
 	stopRet := make(chan error, 2)
